@@ -5,6 +5,7 @@ CONSTANTS
   OwnNeg = 0
   OwnPos = 1
   MaxSteps = 2
+  AcyclicOnly = FALSE
   Variant = "decl"
 INVARIANT MC_LoadIffAcyclic
 INVARIANT CurIsSolution
